@@ -223,6 +223,20 @@ Definition flip_oracle (h : addr_hdr) (l : l4) (impl : bytes) (f : N * N * N * N
 
 Definition even_len (l : bytes) : bool := Nat.even (length l).
 
+(** the property on the implementation's observation: (for SCION address headers: non-empty host
+    addresses of even length) serialization succeeds, the one's complement sum over pseudo header and
+    the written bytes folds to 0xFFFF, and every listed single-bit flip changes it *)
+Definition oracle (h : addr_hdr) (l : l4) (code ilen : N) (impl : bytes) (flips : list (N * N * N * N)) : bool :=
+  if even_len (raw_dst h) && even_len (raw_src h) && negb (N.of_nat (length (raw_dst h)) =? 0)
+     && negb (N.of_nat (length (raw_src h)) =? 0) then
+    (code =? 0) &&
+    match verify_sum h ilen impl (proto_of l) with
+    | Ok s => (s =? 65535) && (N.of_nat (length impl) =? ilen)
+    | _ => false
+    end &&
+    forallb (flip_oracle h l impl) flips
+  else true.
+
 Definition check (c : case) : N :=
   match c with
   | CSer h l plen pints code ilen iints flips =>
@@ -237,18 +251,7 @@ Definition check (c : case) : N :=
                 forallb (fun f => model_flip h l upper0 f =? snd f) flips
       | _ => true
       end in
-    let oracle :=
-      (* the property speaks about SCION address headers: non-empty host addresses of even length *)
-      if even_len (raw_dst h) && even_len (raw_src h) && negb (N.of_nat (length (raw_dst h)) =? 0)
-         && negb (N.of_nat (length (raw_src h)) =? 0) then
-        (code =? 0) &&
-        match verify_sum h ilen impl (proto_of l) with
-        | Ok s => (s =? 65535) && (N.of_nat (length impl) =? ilen)
-        | _ => false
-        end &&
-        forallb (flip_oracle h l impl) flips
-      else true in
-    Check.verdict agree oracle
+    Check.verdict agree (oracle h l code ilen impl flips)
   end.
 
 Definition diag (c : case) : list N :=
